@@ -16,7 +16,7 @@ pub fn def() -> PropDef {
         nontrivial,
         rule: "scripted streams (empty, finite, never-ending, never-ready, items released in bursts by client 'feed' operations or at virtual times) attached through spawn_on_stream, spawn_owning_on_stream and the builder terminals on_stream / bounded_on_stream / with_stream (spawn and spawn_owning); 1-3 clients sending messages through all handle kinds and stopping / dropping the last handle at arbitrary positions; a handler timeout configured in a third of the builder runs; the select! tie-break of the stream loop is drawn from the simulator's PRNG; x seeded schedules; non-trivial = items and messages were both handled and the termination (stop / last drop) arrived with the stream not exhausted, or the tie-break was drawn with both sources ready; distinct = distinct order of client-op, callback and stream events",
         needed_probes: &["c13_items_checked", "c13_stop_with_stream_pending", "c13_stream_end", "c13_last_drop", "select_tie_break_drawn", "c13_gate_burst", "c13_timeout_configured"],
-        quick_runs: 100_000,
+        quick_runs: 200_000,
         thorough_runs: 2_000_000,
         block: 1,
         flavours: &["tokio"],
